@@ -7,6 +7,8 @@ use crate::http::OrderedHeaders;
 use crate::utils::crypto::{hex, hex_sha256, hex_sha256_chunk, hmac_sha256};
 use crate::utils::stable_sort_by_first;
 
+use std::ops::Not;
+
 use hyper::Method;
 use hyper::body::Bytes;
 use smallvec::SmallVec;
@@ -63,6 +65,38 @@ fn is_skipped_header(header: &str) -> bool {
 /// is skipped query string
 fn is_skipped_query_string(name: &str) -> bool {
     name == "X-Amz-Signature"
+}
+
+/// `name:value\n` for each signed header name: the values of a repeated name are joined by commas,
+/// each value is trimmed and sequential spaces inside it are collapsed to one
+fn push_canonical_headers(ans: &mut String, signed_headers: &OrderedHeaders<'_>) {
+    let mut last = "";
+    for &(name, value) in signed_headers.as_ref() {
+        if is_skipped_header(name) {
+            continue;
+        }
+        if name == last {
+            ans.push(',');
+        } else {
+            if last.is_empty().not() {
+                ans.push('\n');
+            }
+            ans.push_str(name);
+            ans.push(':');
+            last = name;
+        }
+        let mut words = value.split([' ', '\t']).filter(|w| w.is_empty().not());
+        if let Some(first) = words.next() {
+            ans.push_str(first);
+            for word in words {
+                ans.push(' ');
+                ans.push_str(word);
+            }
+        }
+    }
+    if last.is_empty().not() {
+        ans.push('\n');
+    }
 }
 
 /// sha256 hash of an empty string
@@ -140,31 +174,22 @@ pub fn create_canonical_request(
 
         // FIXME: check HOST, Content-Type, x-amz-security-token, x-amz-content-sha256
 
-        for &(name, value) in signed_headers.as_ref() {
-            if is_skipped_header(name) {
-                continue;
-            }
-            ans.push_str(name);
-            ans.push(':');
-            ans.push_str(value.trim());
-            ans.push('\n');
-        }
+        push_canonical_headers(&mut ans, signed_headers);
         ans.push('\n');
     }
 
     {
         // <SignedHeaders>\n
-        let mut first_flag = true;
+        let mut last = "";
         for &(name, _) in signed_headers.as_ref() {
-            if is_skipped_header(name) {
+            if is_skipped_header(name) || name == last {
                 continue;
             }
-            if first_flag {
-                first_flag = false;
-            } else {
+            if last.is_empty().not() {
                 ans.push(';');
             }
             ans.push_str(name);
+            last = name;
         }
 
         ans.push('\n');
@@ -352,30 +377,21 @@ pub fn create_presigned_canonical_request(
     {
         // <CanonicalHeaders>\n
 
-        for &(name, value) in signed_headers.as_ref() {
-            if is_skipped_header(name) {
-                continue;
-            }
-            ans.push_str(name);
-            ans.push(':');
-            ans.push_str(value.trim());
-            ans.push('\n');
-        }
+        push_canonical_headers(&mut ans, signed_headers);
         ans.push('\n');
     }
     {
         // <SignedHeaders>\n
-        let mut first_flag = true;
+        let mut last = "";
         for &(name, _) in signed_headers.as_ref() {
-            if is_skipped_header(name) {
+            if is_skipped_header(name) || name == last {
                 continue;
             }
-            if first_flag {
-                first_flag = false;
-            } else {
+            if last.is_empty().not() {
                 ans.push(';');
             }
             ans.push_str(name);
+            last = name;
         }
 
         ans.push('\n');
